@@ -5,6 +5,7 @@ model was written against.  A failing obligation here means the code moved away 
 import GoZero.Extracted.C15
 import GoZero.C15.Proofs2
 import GoZero.C15.ReprProofs
+import GoZero.C15.Props4
 namespace GoZero.C15.Tie
 open GoZero.C15
 
@@ -586,6 +587,36 @@ theorem tie_cacheEntryPoints :
     (GoZero.Extracted.C15.cacheMethods.all fun e => wrapperOk "cc" e && keyParamOk e &&
       (e.2.2.1 == [] || e.2.2.1 == ["key"] || e.2.2.1 == ["keys..."])) = true ∧
     GoZero.Extracted.C15.cacheMethods.length = 13 := by decide
+
+/-! ### round 5c: the ORDER OF LOCK EFFECTS as a typed list, interpreted -/
+
+/-- the statement skeleton as effects on `h.lock` (everything else is `work`, adjacent `work` merged) -/
+def effsOfShape : List String → List Eff
+  | "defer{" :: "call h.lock.Unlock" :: "}" :: rest => .deferUnlock :: effsOfShape rest
+  | "defer{" :: "call h.lock.RUnlock" :: "}" :: rest => .deferRUnlock :: effsOfShape rest
+  | "call h.lock.Lock" :: rest => .lock :: effsOfShape rest
+  | "call h.lock.Unlock" :: rest => .unlock :: effsOfShape rest
+  | "call h.lock.RLock" :: rest => .rlock :: effsOfShape rest
+  | "call h.lock.RUnlock" :: rest => .runlock :: effsOfShape rest
+  | _ :: rest => match effsOfShape rest with
+    | .work :: more => .work :: more
+    | more => .work :: more
+  | [] => []
+
+/-- **semantic tie of the lock discipline**: the effect lists read from the source ARE the model's (`getEffs`,
+`removeEffs`, `addEffs`) — RLock/Lock immediately followed by the deferred unlock, all work after it — so by
+`lock_released_however_it_ends` the lock is free however `Get` / `Remove` / `AddWithReplicas` end (an explicit unlock
+instead of `defer`, or work between lock and defer, breaks this: `explicit_unlock_leaks`) -/
+theorem tie_lockEffects :
+    effsOfShape GoZero.Extracted.C15.getShape = getEffs ∧
+    effsOfShape GoZero.Extracted.C15.removeShape = removeEffs ∧
+    effsOfShape GoZero.Extracted.C15.addWithReplicasShape = addEffs := by decide
+
+theorem tie_lock_panic_safe :
+    PanicSafe (effsOfShape GoZero.Extracted.C15.getShape) ∧ PanicSafe (effsOfShape GoZero.Extracted.C15.removeShape) ∧
+    PanicSafe (effsOfShape GoZero.Extracted.C15.addWithReplicasShape) := by
+  rw [tie_lockEffects.1, tie_lockEffects.2.1, tie_lockEffects.2.2]
+  exact lock_released_however_it_ends
 
 /-- the `nodes` set: add / test / delete of the repr (model: `nodes` list, `contains`, `erase`) -/
 theorem tie_nodeSetHelpers :
